@@ -453,6 +453,29 @@ theorem truncate_witness_after_fix : Generated.truncStopsAfterCut = true →
         (fun p => truncate demoUni p 2 [] (some [0x20])) := by
   decide
 
+/-- **`truncate_loops_never_panic`**. Since fix d6cf9d0 — the `debug_assert!(width_of_grapheme <= 2)` no longer
+stands in front of the fallback of `truncate_str_impl`: `Generated.truncAssertsWideCluster = false`, read from
+`src/ansi/mod.rs` on every run — neither loop of `truncate_str_impl` has a panic point: for every Unicode oracle
+(clusters of any width, 3 and more included), every width, fill character and element list the loops return. A
+cluster wider than two columns that does not fit is replaced by `display_width - used` fill characters. -/
+theorem truncate_loops_never_panic (hno : Generated.truncAssertsWideCluster = false) (U : Uni) (dw : Nat)
+    (fill : Option Bytes) :
+    (∀ gs used acc, ∃ r, takeGraphemes U dw fill gs used acc = .ok r) ∧
+    (∀ its used acc cut, ∃ r, truncItems U dw fill its used acc cut = .ok r) :=
+  ⟨takeGraphemes_total hno U dw fill, truncItems_total hno U dw fill⟩
+
+/-- `a` + a three-column cluster `xy`, two columns: `a` and one blank (the request the unrepaired model answered
+with a panic); three columns next to a one-column tail `>`: `a`, one blank, the tail; three columns: two blanks;
+without a fill character nothing is pushed -/
+example : (if Generated.truncAssertsWideCluster then
+      truncate wideUni [0x61, 0x78, 0x79] 2 [] (some [0x20]) = .error "debug_assert: strange grapheme width"
+    else
+      truncate wideUni [0x61, 0x78, 0x79] 2 [] (some [0x20]) = .ok [0x61, 0x20] ∧
+      truncate wideUni [0x61, 0x78, 0x79] 3 [0x3e] (some [0x20]) = .ok [0x61, 0x20, 0x3e] ∧
+      truncate wideUni [0x61, 0x78, 0x79] 3 [] (some [0x20]) = .ok [0x61, 0x20, 0x20] ∧
+      truncate wideUni [0x61, 0x78, 0x79] 2 [] none = .ok [0x61]) := by
+  decide
+
 /-- The part that holds: a line that fits is returned unchanged, coloured or not, so the stripped
 results agree. (Full statement blocked by the defect above; with the proposed fix
 `notes/fix-truncate-str-continues-after-cut.diff` the cut case needs, in addition, that no
